@@ -99,6 +99,14 @@ fn sites() -> Vec<Site> {
             let (_server, client) = setup_logged_in(4);
             measured(s, move || client.calculate_reconnect_values([7; 16]), |r| r.challenge_data.to_vec())
         }) },
+        Site { name: "client reconnect challenge when the server's challenge is all zero", width: 16, direct: true, call: Box::new(|s| {
+            let (_server, client) = setup_logged_in(6);
+            measured(s, move || client.calculate_reconnect_values([0; 16]), |r| r.challenge_data.to_vec())
+        }) },
+        Site { name: "client reconnect challenge when the server's challenge is all ones", width: 16, direct: true, call: Box::new(|s| {
+            let (_server, client) = setup_logged_in(7);
+            measured(s, move || client.calculate_reconnect_values([0xFF; 16]), |r| r.challenge_data.to_vec())
+        }) },
         Site { name: "vanilla world-login seed (ProofSeed::new)", width: 4, direct: true, call: Box::new(|s| measured(s, || wow_srp::vanilla_header::ProofSeed::new(), |p| p.seed().to_le_bytes().to_vec())) },
         Site { name: "tbc world-login seed (ProofSeed::new)", width: 4, direct: true, call: Box::new(|s| measured(s, || wow_srp::tbc_header::ProofSeed::new(), |p| p.seed().to_le_bytes().to_vec())) },
         Site { name: "wrath world-login seed (ProofSeed::new)", width: 4, direct: true, call: Box::new(|s| measured(s, || wow_srp::wrath_header::ProofSeed::new(), |p| p.seed().to_le_bytes().to_vec())) },
@@ -303,6 +311,14 @@ pub fn run(tier: Tier, seed: u64) -> i32 {
             }
             // the degenerate answers and the VALUE the all-zero answer produced, fed back as an answer: a site that keeps an
             // older value when the draw "looks weak" maps both the weak draw and the older value itself to that older value
+            if !site.direct && w == 32 {
+                // private keys: 256 more answers below 2^248 (no policy has a reason to refuse those)
+                for i in 0..256u32 {
+                    let mut k = refmodel::ctr_bytes(seed, &format!("c15-low-{si}-{i}"), 32);
+                    k[31] = 0;
+                    scripts.push(k);
+                }
+            }
             scripts.push(vec![0u8; w]);
             scripts.push(vec![0xFFu8; w]);
             if base.len() == w {
@@ -321,7 +337,10 @@ pub fn run(tier: Tier, seed: u64) -> i32 {
                             // from later bytes, which all scripts share, so it says nothing about injectivity
                             report.count("answers_after_which_the_site_drew_again", 1);
                             let degenerate = sc.iter().all(|b| *b == sc[0]) || *sc == base;
-                            if site.direct && !degenerate && sc.len() >= 4 {
+                            // private keys (seen through B / A): a range policy may refuse large values, but an ordinary value
+                            // below 2^248 is acceptable to every policy (nonzero, > 1, < N, < N-1, < 2^255)
+                            let ordinary_key = !site.direct && sc.len() == 32 && sc[31] == 0 && sc[8..31].iter().any(|b| *b != 0);
+                            if ((site.direct && sc.len() >= 4) || ordinary_key) && !degenerate {
                                 redrawn_random += 1;
                             }
                             continue;
